@@ -62,14 +62,26 @@ Definition go_signed_val (radix : N) (l : list N) : option Z :=
   end.
 Definition in_int64 (z : Z) : bool := ((-9223372036854775808 <=? z) && (z <=? 9223372036854775807))%Z.
 Definition in_int32 (z : Z) : bool := ((-2147483648 <=? z) && (z <=? 2147483647))%Z.
-(* symbolIdentifier: `$` followed by something Atoi accepts *)
+(* symbolIdentifier: `$` followed by one or more decimal digits and nothing else (no sign),
+   then ParseInt(_, 10, 64) on the digits *)
+Definition dec_digit_b (c : N) : bool := (48 <=? c) && (c <=? 57).
 Definition symbol_identifier (t : text) : option Z :=
   match t with
-  | 36 :: (_ :: _) as r => match go_signed_val 10 r with
-                           | Some z => if in_int64 z then Some z else None
-                           | None => None
-                           end
+  | 36 :: (_ :: _) as r =>
+    if forallb dec_digit_b r then
+      match go_signed_val 10 r with
+      | Some z => if in_int64 z then Some z else None
+      | None => None
+      end
+    else None
   | _ => None
+  end.
+(* isSymbolIDOutOfRange: `$` and digits only, yet not a symbol identifier (the number does not fit) *)
+Definition symbol_id_out_of_range (t : text) : bool :=
+  match t with
+  | 36 :: (_ :: _) as r =>
+    forallb dec_digit_b r && match symbol_identifier t with Some _ => false | None => true end
+  | _ => false
   end.
 (* NewSymbolToken(table, text): the text, with its ID when the table has it *)
 Definition name_symbol_token (l : rlst) (t : text) : tok :=
@@ -81,7 +93,9 @@ Definition new_symbol_token (l : rlst) (t : text) : res tok :=
   | Some sid =>
     if (sid <? 0)%Z then Err
     else match tok_by_sid l (Z.to_N sid) with Some k => Ok k | None => Err end
-  | None => Ok (name_symbol_token l t)
+  | None =>
+    if symbol_id_out_of_range t then Err        (* an ID that does not fit an int64 is undefined *)
+    else Ok (name_symbol_token l t)
   end.
 
 (* ---- textutils.go: parseInt, parseFloat ------------------------------------------------------------- *)
